@@ -1732,3 +1732,164 @@ Proof.
   rewrite E4. cbn [fst snd].
   f_equal; [rewrite Emu; field; lra|]. f_equal; field; lra.
 Qed.
+
+Definition mixg (f muo : R) (bh : R * Cx) : R := f * fst bh + (1 - f) * muo * fst (snd bh).
+
+Lemma lam_map_real (f muo : R) : 0 < f < 1 -> 0 < muo ->
+  forall (Bt : list R) (Ht : list Cx), length Ht = length Bt ->
+  List.Forall (fun b => 0 < b) Bt -> List.Forall (fun h : Cx => snd h = 0 /\ 0 < fst h) Ht ->
+  map fst (map (lam_point RA f muo) (combine Bt Ht)) = map (mixg f muo) (combine Bt Ht) /\
+  map snd (map (lam_point RA f muo) (combine Bt Ht)) = Ht.
+Proof.
+  intros Hf Hm. induction Bt as [|b Bt IH]; intros Ht HL HB HH.
+  - destruct Ht; [|discriminate]. split; reflexivity.
+  - destruct Ht as [|[hr hi] Ht]; [discriminate|]. inversion HB; subst. inversion HH; subst.
+    cbn [fst snd] in *. destruct H3 as [Ei Hr]. subst hi.
+    destruct (IH Ht ltac:(cbn in HL; lia) H2 H4) as [I1 I2].
+    cbn [combine map]. rewrite (lam_point_real f muo b hr Hf Hm H1 Hr). cbn [fst snd].
+    rewrite I1, I2. split; reflexivity.
+Qed.
+
+Lemma mix_incr (f muo : R) : 0 < f < 1 -> 0 < muo ->
+  forall (Bt : list R) (Ht : list Cx), length Ht = length Bt ->
+  incr Bt -> nondecr (map fst Ht) -> incr (map (mixg f muo) (combine Bt Ht)).
+Proof.
+  intros Hf Hm. induction Bt as [|b0 Bt IH]; intros Ht HL Hi Hn; [exact I|].
+  destruct Ht as [|h0 Ht]; [discriminate|].
+  destruct Bt as [|b1 Bt]; [destruct Ht; exact I|].
+  destruct Ht as [|h1 Ht]; [discriminate|].
+  destruct Hi as [Hlt Hi]. cbn [map] in Hn. destruct Hn as [Hh Hn].
+  cbn [combine map]. split.
+  - unfold mixg. cbn [fst snd]. assert (0 <= (1 - f) * muo) by nra. nra.
+  - apply (IH (h1 :: Ht)); auto.
+Qed.
+
+Lemma incr_all_gt : forall Bt b0, incr (b0 :: Bt) -> List.Forall (fun b => b0 < b) Bt.
+Proof.
+  induction Bt as [|b1 Bt IH]; intros b0 Hi; [constructor|].
+  destruct Hi as [Hlt Hi]. constructor; [exact Hlt|].
+  specialize (IH b1 Hi). eapply Forall_impl; [|exact IH]. intros a Ha. cbn in Ha. lra.
+Qed.
+
+Lemma nondecr_all_ge : forall Ht h0, nondecr (h0 :: Ht) -> List.Forall (fun h => h0 <= h) Ht.
+Proof.
+  induction Ht as [|h1 Ht IH]; intros h0 Hi; [constructor|].
+  destruct Hi as [Hlt Hi]. constructor; [exact Hlt|].
+  specialize (IH h1 Hi). eapply Forall_impl; [|exact IH]. intros a Ha. cbn in Ha. lra.
+Qed.
+
+(* the state of the table while the repair loop runs, before the mixing *)
+Definition mix_inv (Bd : list R) (Hd : list Cx) : Prop :=
+  incr Bd /\ hd 0 Bd = 0 /\ length Hd = length Bd /\ (2 <= length Bd)%nat /\
+  List.Forall (fun h : Cx => snd h = 0) Hd /\ nondecr (map fst Hd) /\
+  0 <= fst (hd (czero RA) Hd) /\ 0 < fst (nth 1 Hd (czero RA)).
+
+Lemma smooth3_im0 : forall (l : list Cx) p, snd p = 0 -> List.Forall (fun h : Cx => snd h = 0) l ->
+  List.Forall (fun h : Cx => snd h = 0) (smooth3 (avgC RA) p l).
+Proof.
+  induction l as [|x l IH]; intros p Hp Hl; [constructor|].
+  destruct l as [|y t]; [exact Hl|]. rewrite smooth3_cons2.
+  inversion Hl as [|a1 l1 Hx Hl1]; subst. inversion Hl1 as [|a2 l2 Hy Hl2]; subst.
+  constructor.
+  - destruct p, x, y. cbn [snd] in *. subst. unfold avgC, cdivd, cadd. cbn [fst snd]. ra_simpl. field.
+  - apply IH; assumption.
+Qed.
+
+Lemma smooth_im0 (l : list Cx) : List.Forall (fun h : Cx => snd h = 0) l ->
+  List.Forall (fun h : Cx => snd h = 0) (smooth (avgC RA) l).
+Proof.
+  destruct l as [|x l]; [constructor|]. intros Hl. inversion Hl; subst. cbn [smooth].
+  constructor; [assumption|]. apply smooth3_im0; assumption.
+Qed.
+
+Lemma mix_inv_smooth Bd Hd : mix_inv Bd Hd -> mix_inv (smooth (avgF RA) Bd) (smooth (avgC RA) Hd).
+Proof.
+  intros (Hi & H0 & LH & Hlen & Him & Hn & Hh0 & Hh1).
+  destruct (smooth_hd_last (avgF RA) 0 Bd) as [E1 _].
+  split; [apply smooth_incr; exact Hi|]. split; [rewrite E1; exact H0|].
+  split; [rewrite !smooth_length; exact LH|]. split; [rewrite smooth_length; exact Hlen|].
+  split; [apply smooth_im0; exact Him|]. split; [rewrite smooth_fst; apply smooth_nondecr; exact Hn|].
+  destruct Hd as [|h0 [|h1 Ht]]; try (cbn in LH; lia).
+  cbn [smooth hd]. split; [exact Hh0|].
+  destruct Ht as [|h2 Ht].
+  - cbn. exact Hh1.
+  - rewrite smooth3_cons2. cbn [nth hd map fst] in *. destruct Hn as [N0 [N1 _]].
+    unfold avgC, cdivd, cadd. cbn [fst snd]. ra_simpl. lra.
+Qed.
+
+Lemma slopes_loop_mixing : forall fuel lamfill muo Bd Hd passes,
+  0 < lamfill < 1 -> 0 < muo -> mix_inv Bd Hd ->
+  let r := slopes_loop RA fuel true lamfill muo false Bd Hd passes in
+  rdone r = true ->
+  incr (rB r) /\ length (rH r) = length (rB r) /\ length (rS r) = length (rB r) /\
+  (2 <= length (rB r))%nat /\
+  nondecr (map fst (rH r)) /\ curve_bad RA (rB r) (rH r) (rS r) = false /\ hd 0 (rB r) = 0.
+Proof.
+  induction fuel as [|fuel IH]; intros lamfill muo Bd Hd passes Hf Hm Hinv r Hdone.
+  { cbn in Hdone. discriminate. }
+  subst r. cbn [slopes_loop] in *.
+  destruct (spline_system RA Bd Hd) as [M rhs].
+  destruct (gauss_solve RA M rhs) as [gok Sd].
+  destruct (curve_bad RA Bd Hd Sd) eqn:Ec.
+  - apply (IH lamfill muo _ _ (S passes) Hf Hm (mix_inv_smooth Bd Hd Hinv) Hdone).
+  - assert (Ea : aneb RA lamfill (aone RA) = true).
+    { unfold aneb. ra_simpl. assert (E : Reqb lamfill 1 = false) by (apply Reqb_false; lra).
+      rewrite E. reflexivity. }
+    rewrite Ea in *. cbn [negb andb] in *.
+    destruct Hinv as (Hi & H0 & LH & Hlen & Him & Hn & Hh0 & Hh1).
+    destruct Bd as [|b0 Bt]; [cbn in Hlen; lia|]. destruct Hd as [|h0 Ht]; [discriminate|].
+    cbn [hd] in H0, Hh0. subst b0.
+    assert (LT : length Ht = length Bt) by (cbn in LH; lia).
+    assert (PB : List.Forall (fun b => 0 < b) Bt) by (apply incr_all_gt; exact Hi).
+    assert (PH : List.Forall (fun h : Cx => snd h = 0 /\ 0 < fst h) Ht).
+    { inversion Him as [|a l Hi0 Himt]; subst.
+      destruct Ht as [|h1 Ht]; [constructor|]. cbn [nth] in Hh1. cbn [map] in Hn. destruct Hn as [N0 Hn].
+      pose proof (nondecr_all_ge _ _ Hn) as Hge.
+      inversion Himt as [|a1 l1 Hi1 Himt1]; subst.
+      constructor; [split; assumption|].
+      clear - Hge Himt1 Hh1. induction Ht as [|h2 Ht IHt]; [constructor|].
+      cbn [map] in Hge. inversion Hge; subst. inversion Himt1; subst.
+      constructor; [split; [assumption|lra]|]. apply IHt; assumption. }
+    destruct (lam_map_real lamfill muo Hf Hm Bt Ht LT PB PH) as [E1 E2].
+    unfold lam_fix in Hdone |- *. rewrite E1, E2 in *.
+    set (Bd' := 0 :: map (mixg lamfill muo) (combine Bt Ht)) in *.
+    assert (LB' : length Bd' = length (0 :: Bt)).
+    { unfold Bd'. cbn [length]. rewrite map_length, combine_length. lia. }
+    assert (Hi' : incr Bd').
+    { unfold Bd'. destruct Bt as [|b1 Bt]; [cbn in Hlen; lia|]. destruct Ht as [|h1 Ht]; [discriminate|].
+      apply incr_cons; [cbn; discriminate| |].
+      - cbn [combine map hd]. unfold mixg. cbn [fst snd].
+        inversion PB; subst. inversion PH as [|a l [_ Hp1] _]; subst.
+        assert (0 < (1 - lamfill) * muo * fst h1) by (apply Rmult_lt_0_compat; nra). nra.
+      - apply mix_incr; auto. { destruct Hi; assumption. }
+        cbn [map] in Hn. destruct Hn; assumption. }
+    pose proof (slopes_loop_invariant fuel true lamfill muo true Bd' (h0 :: Ht) passes
+                  (or_intror (or_intror eq_refl)) Hi' ltac:(rewrite LB'; exact LH) Hn Hdone)
+      as (I1 & I2 & I3 & I4 & I5 & I6 & I7 & I8).
+    split; [exact I1|]. split; [congruence|]. split; [congruence|].
+    split; [rewrite I2, LB'; exact Hlen|]. split; [exact I5|]. split; [exact I6|].
+    rewrite I7. reflexivity.
+Qed.
+
+(* H(|B|) of the material GetSlopes(0) builds from a monotone real table starting at the origin,
+   fill-factor mixing included, is non-decreasing *)
+Theorem get_slopes_monotone_mixing fuel lamfill muo mux Bd Hd :
+  0 < lamfill < 1 -> 0 < muo -> mix_inv Bd Hd ->
+  let r := get_slopes RA fuel true lamfill muo Bd Hd in
+  rdone r = true ->
+  let m := mkMat (rB r) (rH r) (rS r) mux muo in
+  forall x y, Rabs x <= Rabs y -> fst (getH RA m x) <= fst (getH RA m y).
+Proof.
+  intros Hf Hm Hinv r Hdone m. subst m r. unfold get_slopes in *.
+  destruct (slopes_loop_mixing fuel lamfill muo Bd Hd 0 Hf Hm Hinv Hdone)
+    as (I1 & I3 & I4 & I2 & I5 & I6 & I7).
+  set (r := slopes_loop RA fuel true lamfill muo false Bd Hd 0) in *.
+  intros x y Hxy.
+  set (m := mkMat (rB r) (rH r) (rS r) mux muo).
+  assert (Hwf : tbl_wf m).
+  { unfold tbl_wf, m. cbn [mB mH mS]. split; [exact I1|]. split; [exact I3|]. split; [exact I4|].
+    intros E. rewrite E in I2. cbn in I2. lia. }
+  apply (getH_monotone m Hwf); unfold m; cbn [mB mH mS]; auto.
+  - unfold lastS. cbn [mS]. apply (curve_ok_last_slope (rB r) (rH r) (rS r)); auto.
+  - rewrite I7. apply Rabs_pos.
+Qed.
